@@ -760,4 +760,42 @@ mod bk {
         kani::cover!(stalled);
         kani::cover!(!stalled && v == 7);
     }
+
+    /// RECLAMATION: clear_with may only schedule detached blocks for destruction through the epoch guard
+    /// (`Guard::defer_unchecked`); it must never free one itself, because a snapshot reader or a straggling pusher that pinned
+    /// before the detach can still hold a reference.  Designed state: a chain of 33 empty, quiesced blocks (one more than
+    /// DEFERRED_BLOCK_BATCH_SIZE, so both the full-batch and the remainder path run).  The epoch never advances
+    /// (defer_unchecked leaks its closure), i.e. "another thread stays pinned": after clear_with returns, a reader that
+    /// obtained the first, the 32nd and the last block before the clear dereferences them -- CBMC's pointer checks fail on a
+    /// deallocated object.  Both hand-offs to the guard are counted.
+    #[kani::proof]
+    #[kani::unwind(35)]
+    #[kani::stub(crossbeam_epoch::pin, pin_stub)]
+    #[kani::stub(crossbeam_epoch::atomic::decompose_tag, decompose_tag_stub)]
+    #[kani::stub(crossbeam_utils::Backoff::snooze, snooze_stub)]
+    #[kani::stub(crossbeam_epoch::Guard::defer_unchecked, defer_leak_stub)]
+    fn c05b_reclaim_only_deferred() {
+        assert!(DEFERRED_BLOCK_BATCH_SIZE == 32);
+        stall(ptr::null(), 0, 0);
+        let bucket: AtomicBucket<u8> = AtomicBucket::new();
+        let mut ptrs: [*const Block<u8>; 33] = [ptr::null(); 33];
+        let mut i = 0;
+        while i < 33 {
+            ptrs[i] = install(Block::new());
+            if i > 0 { link(ptrs[i - 1], ptrs[i]); }
+            i += 1;
+        }
+        set_tail(&bucket, ptrs[0]);
+        let mut calls = 0usize;
+        bucket.clear_with(|xs| { assert!(xs.len() == 0); calls += 1; });
+        assert!(calls == 33);
+        assert!(tail_ptr(&bucket).is_null());
+        // every detached block went to the guard: one full batch of 32 and the remainder
+        assert!(deferred() == 2);
+        // the pinned reader's references are still valid memory (nothing was freed behind the guard's back)
+        for k in [0usize, 31, 32] {
+            let b = unsafe { &*ptrs[k] };
+            assert!(b.write.load(Ordering::SeqCst) == 0 && b.read.load(Ordering::SeqCst) == 0);
+        }
+    }
 }
